@@ -403,6 +403,9 @@ func (r *runner) Op(t []string) string {
 			}
 			ks = append(ks, int(v))
 		}
+		if h.Atoi(t[2]) > h.Atoi(t[3]) {
+			return "bad-op"
+		}
 		return errEnum(sh.DeleteSeriesRange(ctx, &sliceSeriesIterator{ks: ks}, h.Atoi(t[2]), h.Atoi(t[3])))
 	case "snap":
 		e := r.engine()
